@@ -74,7 +74,12 @@ func coResume(L *LState) int {
 		th.Panic = panicWithoutTraceback
 	} else {
 		nargs := L.GetTop() - 1
+		base := th.reg.Top()
 		L.XMoveTo(th, nargs)
+		if th.yieldNRet != MultRet {
+			// the pending yield expects a fixed number of results: pad with nil or drop the surplus
+			th.reg.SetTop(base + th.yieldNRet)
+		}
 	}
 	top := L.GetTop()
 	threadRun(th)
